@@ -21,5 +21,5 @@
 //@@ include diffablestr.rs
 //@@ include textdiff_spec.rs
 //@@ include textdiff.rs
-//@@ props ^TextDiffConfig::|^IdentifyDistinct::|^Index for OffsetLookup|^Deadline::|^duration_to_deadline$ : C02
+//@@ props ^TextDiffConfig::|^IdentifyDistinct::|^Index for OffsetLookup|^Deadline::|^duration_to_deadline$ : C02 C04 C17
 fn main() {}
